@@ -302,6 +302,6 @@ pub fn run_case(rng: &mut Rng, rep: &mut Report) {
 }
 
 pub fn run(cfg: &RunCfg) -> Report {
-    let cases = cfg.cases(12_000, 500_000);
+    let cases = cfg.cases(30_000, 1_000_000);
     run_cases(cfg, 0, cases, Duration::from_secs(3600), |_c, rng, rep| run_case(rng, rep))
 }
